@@ -1,6 +1,8 @@
 package opset13
 
 import (
+	"runtime"
+
 	"github.com/advancedclimatesystems/gonnx/onnx"
 	"github.com/advancedclimatesystems/gonnx/ops"
 	"gorgonia.org/tensor"
@@ -46,6 +48,8 @@ func (c *ConstantOfShape) Init(n *onnx.NodeProto) error {
 			}
 
 			c.value = tensor.New(tensor.WithBacking(t.Data()))
+			// Data() derives the slice from a uintptr: t must stay reachable until the data has its new owner.
+			runtime.KeepAlive(t)
 			if c.value.Len() != 1 {
 				return ops.ErrInvalidTensor("expected tensor to have one element", c)
 			}
